@@ -66,10 +66,14 @@ func runC14(c *Ctx) {
 		return b64(codec.NTLMAuthenticate(nameField, domain, "WS", nt, lm, sbk))
 	}
 	dummy := &codec.NTLMChallenge{ServerChallenge: []byte("12345678"), TargetInfo: []byte{0, 0, 0, 0}}
+	pendingInsider, pendingSess := "", ""
 	for i := 0; i < nops && c.S.Viol == nil; i++ {
 		sn := names[c.T.Choose(len(names))]
 		s := sess[sn]
-		kind := c.T.Weighted(5, 5, 2, 2, 2, 2, 2, 2, 1, 1, 1, 3, 2)
+		kind := c.T.Weighted(5, 5, 2, 2, 2, 2, 2, 2, 1, 1, 1, 3, 2, 2)
+		if pendingInsider != "" {
+			kind = 14 // second half of the two-message sequence started below
+		}
 		var msg, what string
 		mustAuth := ""
 		switch kind {
@@ -138,6 +142,38 @@ func runC14(c *Ctx) {
 			}
 		case 7:
 			what, msg = "empty-message", ""
+		case 13:
+			// a correct proof inside an authenticate message with unusual (legal) flags, e.g. key
+			// exchange requested but no session key sent; whatever the verifier makes of it, the
+			// NEXT message on this session names another user and reuses this user's key
+			user := users[c.T.Choose(len(users))].Username
+			ch := s.chal
+			if ch == nil {
+				ch = dummy
+			}
+			fl := c.T.Choose(len(codec.NTLMOddFlags))
+			var ek []byte
+			if c.T.Bool(1, 2) {
+				ek = c.T.Bytes(16, 4)
+			}
+			nt, lm, _ := codec.NTLMv2Response(user, db[user], "", ch.ServerChallenge, c.T.Bytes(8, 1), ch.TargetInfo, time.Now())
+			what, msg = fmt.Sprintf("auth-correct-odd-flags(%s,flags#%d,sessionkey=%d)", user, fl, len(ek)), b64(codec.NTLMAuthenticateRaw(user, "", "WS", nt, lm, codec.NTLMOddFlags[fl], ek))
+			pendingInsider, pendingSess = user, sn
+		case 14:
+			other := pendingInsider
+			pendingInsider = ""
+			sn = pendingSess
+			s = sess[sn]
+			named := users[c.T.Choose(len(users))].Username
+			ch := s.chal
+			if ch == nil {
+				ch = dummy
+			}
+			pw := db[other]
+			if pw == "" {
+				pw = "insider-guess"
+			}
+			what, msg = fmt.Sprintf("auth-as(%s)-with-key-of(%s)", named, other), mkType3x(named, other, pw, "", ch)
 		case 12:
 			// a name that differs from a configured one only in case (NTLMv2 upper-cases the
 			// user name when deriving the key, so the proof is computed as for the configured
